@@ -3,10 +3,10 @@
 package proxy
 
 import (
-	"time"
 	"context"
 	"io"
 	"sync"
+	"time"
 
 	"go.temporal.io/server/api/adminservice/v1"
 	replicationv1 "go.temporal.io/server/api/replication/v1"
@@ -122,6 +122,7 @@ type vfClientStream struct {
 	onSend    func(*vfReq)
 	// when set, the serving side does not end its stream in response to CloseSend (an idle / stalled peer)
 	ignoreCloseSend bool
+	closeSendWedge  bool
 }
 
 func newVfClientStream(ctx context.Context) *vfClientStream {
@@ -155,6 +156,16 @@ func (c *vfClientStream) Send(m *vfReq) error {
 }
 func (c *vfClientStream) CloseSend() error {
 	c.mu.Lock()
+	wedge := c.closeSendWedge
+	c.mu.Unlock()
+	if wedge {
+		c.mu.Lock()
+		c.closeSent = true
+		c.mu.Unlock()
+		<-c.ctx.Done()
+		return status.Error(codes.Canceled, "context canceled")
+	}
+	c.mu.Lock()
 	defer c.mu.Unlock()
 	if !c.closeSent {
 		c.closeSent = true
@@ -186,9 +197,12 @@ type vfAdminClient struct {
 	streams         []*vfClientStream
 	openErr         error
 	describe        *adminservice.DescribeClusterResponse
+	describeErrs    []error // the next DescribeCluster calls fail with these, in order
 	onOpen          func(*vfClientStream)
-	autoClose       bool // every new stream immediately ends with EOF
+	autoClose       bool    // every new stream immediately ends with EOF
+	preload         *vfResp // sent on every new stream before anything else
 	ignoreCloseSend bool
+	closeSendWedge  bool          // CloseSend does not return until the stream's context ends (wedged transport)
 	openBlock       chan struct{} // non-nil: opening a stream blocks (connection still being established) until the context ends or this is closed
 }
 
@@ -210,10 +224,14 @@ func (a *vfAdminClient) StreamWorkflowReplicationMessages(ctx context.Context, o
 	}
 	cs := newVfClientStream(ctx)
 	cs.ignoreCloseSend = a.ignoreCloseSend
+	cs.closeSendWedge = a.closeSendWedge
 	a.mu.Lock()
 	a.streams = append(a.streams, cs)
-	cb, ac := a.onOpen, a.autoClose
+	cb, ac, pre := a.onOpen, a.autoClose, a.preload
 	a.mu.Unlock()
+	if pre != nil {
+		cs.recv <- vfItem[vfResp]{val: pre}
+	}
 	if ac {
 		cs.recv <- vfItem[vfResp]{err: io.EOF}
 	}
@@ -223,6 +241,14 @@ func (a *vfAdminClient) StreamWorkflowReplicationMessages(ctx context.Context, o
 	return cs, nil
 }
 func (a *vfAdminClient) DescribeCluster(ctx context.Context, in *adminservice.DescribeClusterRequest, opts ...grpc.CallOption) (*adminservice.DescribeClusterResponse, error) {
+	a.mu.Lock()
+	if len(a.describeErrs) > 0 {
+		err := a.describeErrs[0]
+		a.describeErrs = a.describeErrs[1:]
+		a.mu.Unlock()
+		return nil, err
+	}
+	a.mu.Unlock()
 	if a.describe == nil {
 		return nil, status.Error(codes.Unavailable, "no describe")
 	}
